@@ -152,9 +152,68 @@ def run_corpus(ctx):
     return good
 
 
+def gen_prod_cases(rng, n):
+    cases = []
+    for i in range(n):
+        producers = []
+        v = rng.choice([1, 5, 7])
+        for _ in range(rng.choice([2, 3, 4])):
+            cls = rng.choice(["GP", "GP", "GF", None])
+            producers.append({"cls": cls, "k": rng.choice([1, 2, 3]), "v": v if rng.random() < 0.8 else rng.choice([1, 5, 7])})
+        consumers = [{"embed": rng.choice(["o", "o", "os", "h"]), "of": j} for j in range(len(producers))]
+        consumers += [{"embed": rng.choice(["o", "os", "h"]), "of": rng.randrange(len(producers))} for _ in range(rng.choice([0, 1, 2]))]
+        first = [j for j in range(len(consumers)) if rng.random() < 0.3]
+        rng.shuffle(first)
+        cases.append({"mode": rng.choice(["dry", "generate"]), "producers": producers, "consumers": consumers, "request_first": first})
+    return cases
+
+
+def prod_part(ctx, n):
+    """embedded task outputs through real submits: consumers of outputs of different producers never share an identifier"""
+    from concurrent.futures import ThreadPoolExecutor
+    cases = gen_prod_cases(ctx.rng, n)
+    tmp = ctx.tmpdir()
+    parts, k = identlib.split(list(enumerate(cases)), 4)
+    recs = [None] * len(cases)
+    with ThreadPoolExecutor(max_workers=4) as ex:
+        futs = [(part, ex.submit(identlib.run_worker, {"cases": [c for _, c in part]}, tmp, f"prod-{pi}", None, "xv.impl.prod_worker"))
+                for pi, part in enumerate(parts)]
+        for part, f in futs:
+            for (ci, _), r in zip(part, f.result()):
+                recs[ci] = r
+    good = []
+    for case, rec in zip(cases, recs):
+        if rec["error"]:
+            raise RuntimeError(f"producing-task case cannot run: {rec['error']}")
+        ctx.case({"producing_task_case": case}, True)
+        ctx.count("producing_task_mode", case["mode"])
+
+        def sig(ci):
+            c = case["consumers"][ci]
+            p = case["producers"][c["of"]]
+            # what distinguishes the embedded value: embedding position, value, and which task (if any) produced it
+            return (c["embed"], p["v"], None if p["cls"] is None else (p["cls"], p["k"], p["v"]))
+
+        done = False
+        for a in range(len(case["consumers"])):
+            for b in range(a + 1, len(case["consumers"])):
+                if sig(a) != sig(b) and rec["ids"][a] == rec["ids"][b] and not done:
+                    done = True
+                    ctx.monitor_fail(f"collision:producing-task:{case['mode']}",
+                                     f"consumers {a} and {b} share identifier {rec['ids'][a][:16]}… although they embed {sig(a)} and {sig(b)} "
+                                     f"(mode {case['mode']}, outputs produced by {rec['producers_of']})", {"producing_task_case": case})
+        # a task that marks its own sealed parameter makes the graph cyclic *after* its identifier was frozen: the
+        # cache-free specification of the final graph is not the reference there (monitor only)
+        if not any(p["cls"] == "GP" for p in case["producers"]):
+            good.append(({"graph": {"producing_task_case": case}, "edit": {"kind": "producing-task(real submit)"}}, rec))
+        else:
+            ctx.count("producing_task_model_compared", "no (self-marked parameter)")
+    return good
+
+
 def correspond(ctx):
     rng = ctx.rng
-    corpus_good = run_corpus(ctx)
+    corpus_good = run_corpus(ctx) + prod_part(ctx, ctx.scale(24, 300))
     ctx.rule = ("near pairs: graph and its image under one signature-changing edit (scalar changed, list append/drop/swap, element moved between neighbouring "
                 "lists, dict key renamed / item added / dropped / moved between sibling dicts, sibling parameters swapped, enum member, unset optional set, "
                 "pre-task added, init tasks permuted, producing task changed, type identifier changed); non-trivial = edit inside a container or at a "
@@ -189,6 +248,7 @@ def correspond(ctx):
 
 def search(ctx):
     run_corpus(ctx)
+    prod_part(ctx, 60)
     rng = random.Random(f"search-{ctx.seed}")
     libs, cases = gen(ctx, rng, ctx.scale(8, 30), 100, "c03s")
     res = identlib.run_cases(ctx, libs, [{"lib": c["lib"], "steps": c["steps"]} for c in cases], shards=12)[None]
@@ -207,6 +267,15 @@ F2_B = {"nodes": [{"cls": "W", "values": [["d", {"d": [["a", {"l": [{"d": [["k",
 
 def run_witness(ctx, finding):
     w = finding.get("witness") or {}
+    if w.get("kind") == "producing-task":
+        from concurrent.futures import ThreadPoolExecutor
+        rec = identlib.run_worker({"cases": [w["case"]]}, ctx.tmpdir(), "prodw", None, "xv.impl.prod_worker")[0]
+        if rec["error"]:
+            raise RuntimeError(rec["error"])
+        if len(set(rec["ids"])) < len(rec["ids"]):
+            ctx.monitor_fail(f"collision:producing-task:{w['case']['mode']}",
+                             f"consumers of outputs of different producers share an identifier: {[i[:12] for i in rec['ids']]}", {"producing_task_case": w["case"]})
+        return
     if w.get("kind") != "dict-through-list":
         return
     res = identlib.run_cases(ctx, [F2_LIB], [{"lib": 0, "steps": id_steps(F2_A, "A") + id_steps(F2_B, "B")}], shards=1)[None][0]
